@@ -89,6 +89,36 @@ pub open spec fn math_piece_ok(n: &SyntaxNode, d: DocV) -> bool {
     &&& (!ast::expr_kind(n.kind_s()) && n.kind_s() != SyntaxKind::Space && n.kind_s() != SyntaxKind::Hash ==> d == txt(n.text_s()))
 }
 
+/// PF4: a MathDelimited node has its opening and closing delimiter as first and last child
+#[verifier::external_body]
+pub proof fn pf_math_delimited(n: &SyntaxNode)
+    requires tree_wf(n), n.kind_s() == SyntaxKind::MathDelimited,
+    ensures n.children_s().len() >= 2, n.children_s().last().kind_s() != SyntaxKind::Space,
+{}
+/// C09: a delimited group keeps its inner edge whitespace: the whitespace token right after the opening delimiter and the
+/// one right before the closing delimiter (if present) become exactly a blank or a mandatory break, by their newline content
+pub open spec fn space_piece(n: &SyntaxNode) -> DocV { if has_newline_s(n.text_s()) { DocV::Hardline } else { sp() } }
+pub open spec fn delim_inner(ch: Seq<&SyntaxNode>) -> Seq<&SyntaxNode> { ch.subrange(1, ch.len() - 1) }
+pub open spec fn delim_open_is_space(ch: Seq<&SyntaxNode>) -> bool { delim_inner(ch).len() > 0 && delim_inner(ch)[0].kind_s() == SyntaxKind::Space }
+pub open spec fn delim_inner1(ch: Seq<&SyntaxNode>) -> Seq<&SyntaxNode> {
+    if delim_open_is_space(ch) { delim_inner(ch).subrange(1, delim_inner(ch).len() as int) } else { delim_inner(ch) }
+}
+pub open spec fn delim_close_is_space(ch: Seq<&SyntaxNode>) -> bool { delim_inner1(ch).len() > 0 && delim_inner1(ch).last().kind_s() == SyntaxKind::Space }
+pub open spec fn delim_open_space(ch: Seq<&SyntaxNode>) -> DocV { if delim_open_is_space(ch) { space_piece(delim_inner(ch)[0]) } else { DocV::Nil } }
+pub open spec fn delim_close_space(ch: Seq<&SyntaxNode>) -> DocV { if delim_close_is_space(ch) { space_piece(delim_inner1(ch).last()) } else { DocV::Nil } }
+pub open spec fn math_delimited_ok(ch: Seq<&SyntaxNode>, unit: int, d: DocV) -> bool {
+    exists|o: DocV, b: DocV, c: DocV| d == #[trigger] cat(cat(o, cat(nest(unit, cat(delim_open_space(ch), b)), delim_close_space(ch))), c)
+}
+pub proof fn lemma_lc_followed_sub(ch: Seq<&SyntaxNode>, a: int, b: int)
+    requires lc_followed(ch), 0 <= a <= b <= ch.len(),
+    ensures lc_followed(ch.subrange(a, b)),
+{
+    let s = ch.subrange(a, b);
+    assert forall|j: int| 0 <= j && j + 1 < s.len() && (#[trigger] s[j]).kind_s() == SyntaxKind::LineComment implies is_nl_space(s[j + 1]) by {
+        assert(s[j] == ch[a + j]); assert(s[j + 1] == ch[a + j + 1]);
+    }
+}
+
 /// C10: what `convert_raw` must emit for the children of a (non-verbatim) raw node, in order: delimiter and language tag as
 /// their own text, each text line verbatim, each trimmed part as exactly one blank or one mandatory break; nothing else
 pub open spec fn raw_piece(n: &SyntaxNode) -> Seq<DocV> {
